@@ -119,6 +119,8 @@ MSGS = [
     ("get_task_state as string", msg("get_task_state", tid="0")),
     ("get_task_states", msg("get_task_states")),
     ("close", msg("close")),
+    ("unknown kind that names a method of the scheduler", msg("kill")),
+    ("unknown kind that names a method of the scheduler, with arguments", msg("try_handle_task", tid=0, name="b0", script="job b0", working_dir="/vfs/proj", time_limit=None, deps=[])),
 ]
 CANCEL_KNOWN = ("cancel B's task (legitimate)", msg("cancel_task", tid=0))
 
@@ -274,9 +276,9 @@ def q14(m0: int, m1: int, m2: int, drop: int, when: int, legit: bool) -> str:
 
 QUERIES = [
     {"name": "Q14", "fn": q14,
-     "shards": {"quick": [{"m0": k, "nlines": 2, "whens": [1, 3]} for k in (0, 1, 2, 4, 6, 8, 12, 13, 14, 15, len(MSGS) - 1, len(MSGS))],
+     "shards": {"quick": [{"m0": k, "nlines": 2, "whens": [1, 3]} for k in (0, 1, 2, 4, 6, 8, 12, 13, 14, 15, 21, 22, len(MSGS))],
                 "thorough": [{"m0": k, "nlines": 2} for k in range(len(MSGS) + 1)] + [{"m0": a, "m1": b, "nlines": 3} for a in (0, 1, 6, 13, 14) for b in (0, 2, 8, 12, 13, 14, 15, 21)]},
      "timeout": {"quick": 900, "thorough": 3000},
      "bound": "client A sends up to 3 lines, each from a catalogue of %d message shapes (%s) or nothing, then keeps the connection / closes it / its writer breaks / the connection is reset (every later read raises at once); client B's child exits before A's 1st/2nd/3rd line or after (quick: before the 2nd line or after all); "
-              "quick: 2 lines, the first from 12 of the shapes, the second any; thorough: 2 lines over all pairs, 3 lines for 24 prefixes" % (len(MSGS), ", ".join(l for l, d in MSGS))},
+              "quick: 2 lines, the first from 13 of the shapes, the second any; thorough: 2 lines over all pairs, 3 lines for 24 prefixes" % (len(MSGS), ", ".join(l for l, d in MSGS))},
 ]
